@@ -34,7 +34,7 @@ type c17DB struct {
 }
 
 func checkC17(c *core.Ctx) []core.Floor {
-	c.Rule = "scripts of 15-60 steps over 2-4 databases in one session per process lifetime, REAL 100 ms flush timer: CREATE DATABASE (new / existing / other letter case), USE (another / the current one / a missing one / other letter case), SHOW DATABASES, DDL and DML as SQL text through Session.ExecQuery, pauses of 0 / 130 / 350 ms, and restarts (clean close, os.Exit without close, SIGKILL; abrupt ones after a pause of > 2 ticks) after which a new process runs InitStorage and continues the script. Oracle: model of databases; the current database changes only on a successful USE; after every successful USE every table of the selected database is read and compared; at every restart boundary the data directory (process gone, hence quiescent) is copied and a separate process recovers the copy and reads every table of every database; SHOW DATABASES must equal the created names (lower-cased set). Distinct = script; non-trivial = the script re-selected the current database or switched databases with unflushed work, then paused >= 1 tick."
+	c.Rule = "scripts of 15-60 steps over 2-4 databases (one script in 48 opens by creating 100-1030 further databases and lists them before and after a restart) in one session per process lifetime, REAL 100 ms flush timer: CREATE DATABASE (new / existing / other letter case), USE (another / the current one / a missing one / other letter case), SHOW DATABASES, DDL and DML as SQL text through Session.ExecQuery, pauses of 0 / 130 / 350 ms, and restarts (clean close, os.Exit without close, SIGKILL; abrupt ones after a pause of > 2 ticks) after which a new process runs InitStorage and continues the script. Oracle: model of databases; the current database changes only on a successful USE; after every successful USE every table of the selected database is read and compared; at every restart boundary the data directory (process gone, hence quiescent) is copied and a separate process recovers the copy and reads every table of every database; SHOW DATABASES must equal the created names (lower-cased set). Distinct = script; non-trivial = the script re-selected the current database or switched databases with unflushed work, then paused >= 1 tick."
 	c.Assume = []string{"database names are compared case-insensitively (directories are lower-cased)", "abrupt restarts follow a pause of more than two ticks and a look at the cache (no dirty page left), so that a kill never lands inside a page flush (that situation is C04's)"}
 	drv := mustDriver(c, false)
 	n := 96
@@ -44,7 +44,7 @@ func checkC17(c *core.Ctx) []core.Floor {
 	core.ParallelFor(n, c.Workers, func(i int) { runC17(c, drv, i) })
 	return []core.Floor{{Key: "scripts", Min: int64(n)}, {Key: "use_same", Min: 20}, {Key: "use_other", Min: 50}, {Key: "use_missing", Min: 20}, {Key: "use_othercase", Min: 5},
 		{Key: "restart_clean", Min: 10}, {Key: "restart_exit", Min: 10}, {Key: "restart_kill", Min: 10}, {Key: "reuse_same_then_insert_then_pause", Min: 5}, {Key: "failed_use_then_dml", Min: 5},
-		{Key: "restart_boundary_databases_verified", Min: 100}, {Key: "dumps_after_use_compared", Min: 100}, {Key: "create_existing", Min: 10}}
+		{Key: "restart_boundary_databases_verified", Min: 100}, {Key: "dumps_after_use_compared", Min: 100}, {Key: "create_existing", Min: 10}, {Key: "scripted_openings_with_hundreds_of_databases", Min: 1}}
 }
 
 func runC17(c *core.Ctx, drv string, idx int) {
@@ -108,6 +108,26 @@ func runC17(c *core.Ctx, drv string, idx int) {
 		steps = append(steps, c17Step{kind: "use", name: b, useCls: "other"}, c17Step{kind: "use", name: a, useCls: "other"})
 		nsteps += len(steps)
 		c.Count("scripted_two_level_catalog_openings", 1)
+	}
+	if idx%48 == 7 {
+		// scripted opening: hundreds of databases (counts around the sizes in
+		// which directory listings are usually read), listed before and
+		// after a restart
+		nmany := []int{100, 255, 256, 257, 511, 512}[r.Intn(6)]
+		if (idx/48)%2 == 1 {
+			nmany = []int{513, 600, 1030}[r.Intn(3)]
+		}
+		for k := 0; k < nmany; k++ {
+			nm := fmt.Sprintf("m%04d", k)
+			steps = append(steps, c17Step{kind: "create_db", name: nm})
+			dbs[nm] = &c17DB{m: model.NewDB(), grave: model.Graveyard{}}
+			dbs[nm].h = gen.NewHist(core.NewRand(r.U64()), true)
+		}
+		steps = append(steps, c17Step{kind: "show"}, c17Step{kind: "pause", ms: 250}, c17Step{kind: "restart", how: "clean"}, c17Step{kind: "show"})
+		cur = ""
+		nsteps += len(steps)
+		c.Count("scripted_openings_with_hundreds_of_databases", 1)
+		c.Count(fmt.Sprintf("databases_%d", nmany), 1)
 	}
 	for len(steps) < nsteps {
 		x := r.Intn(20)
